@@ -73,6 +73,10 @@ CLAIMED = {
    technique="TLA+ value semantics of interpreter instances: TLC enumerates all clone/submit/step histories per theme (MC_C03); histories executed on real State::clone values and validated by TLC against the observational trace specification Trace_CloneObs; REPL /snapshot-/rollback scripts through the real binary",
    text="On the specification level an interpreter is a value: what an instance renders is a function of the calls applied to it since boot, a clone inheriting its source's sequence. TLC enumerates every history (up to three instances, clone of clone, length 3-4) over themed alphabets built to share storage and then mutate it - slices of a variable's bit-string, variables/vectors/maps, definitions with late binding that patches code in place, the parsing cursor and intercepted output, the 2D canvas host object, stepping and reverse stepping. Each history is executed on real State values and the canonical dump of every live instance after every event is validated by TLC against the trace specification, which implies: a clone equals its source, an event on one instance changes no other, and equal call sequences give equal dumps, results and output. Seeded long histories over the whole dictionary and REPL /snapshot-/rollback scripts through the real binary complete it.",
    note="The dump renders shared structure by value (bit-strings as bits, the canvas through the plugin's public accessors); non-deterministic and external words are excluded by the property itself."),
+ "C08": dict(cat="exploration", design="5/C08",
+   technique="TLA+ totality statement (Trace_Total: every call ends Ok or Err, no action produces a panic) and the argument matrix generated by TLC from Words.tla (MC_C08); harness runs the matrix, all token pairs and seeded API sequences under catch_unwind in dev and release builds",
+   text="TLC generates the complete matrix of tabulated words x argument tuples from a pool that crosses every type with the integer boundary values (0, +-1, 2^63, 2^64, i128 min/max, isize min), NaN/inf, empty and 76-byte non-ASCII strings, nested and tagged values incl. hand-made formatting tags; the harness runs it with recording off and on, applies the same pools to every other dictionary word at arities 0..3 and as follower of immediate words, runs all ordered pairs of ~270 tokens (dictionary, structural tokens, malformed fragments) and seeded API call sequences (eval, compile, run, next, rnext, pretty_error, format_cell, clone/restore, limits), in a build with overflow checks and a release build. Every call is under catch_unwind and followed by error formatting; a dead process is attributed through a progress log. Outcomes are validated by TLC against the totality trace specification.",
+   note="Exploration level: no panic on the explored inputs, not a proof; the property's own preconditions apply (limits set, modest allocation sizes, external words excluded)."),
 }
 
 PENDING_REASON = "check not built yet in this build session (planned, DESIGN.md section 12); no claim is made for it"
